@@ -693,6 +693,90 @@ func firstUseScenario(a, b string, bounds []int) explore.Scenario {
 	}
 }
 
+// ---------------------------------------------------------------- writers in two namespaces sharing one store
+
+// slowMarshaler lets time pass between producing a record and handing it to the store (a writer waiting for
+// bbolt's single write transaction): whatever another writer marshals meanwhile must not reach this record.
+type slowMarshaler struct{ store.Marshaler }
+
+func (m slowMarshaler) MarshalResource(r resource.Resource) ([]byte, error) {
+	b, err := m.Marshaler.MarshalResource(r)
+	vrt.Yield()
+	return b, err
+}
+
+func sharedStoreScenario(mname string, bounds []int) explore.Scenario {
+	return explore.Scenario{
+		Name:   "shared-store/" + mname,
+		Desc:   "two writers in two namespaces of one bbolt store (marshaler " + mname + ", marshal-then-wait-for-the-transaction as a free switch) create and update concurrently; all schedules: after close and reopen every namespace holds exactly what was acknowledged",
+		Bounds: bounds,
+		Body: func(x *explore.X) {
+			lb.RegisterConformanceResources()
+			ctx := context.Background()
+			vrt.Branching(false)
+			dir, _ := os.MkdirTemp(tmpDir(), "c10s-")
+			defer os.RemoveAll(dir)
+			path := filepath.Join(dir, "s.db")
+			mk := marshalers()[mname]
+			shared := mk() // one marshaler instance for the whole store, as an application builds it
+			bs, err := bolt.NewBackingStore(func() (*bbolt.DB, error) { return bbolt.Open(path, 0o600, nil) }, slowMarshaler{shared})
+			if err != nil {
+				panic(err)
+			}
+			nss := []string{"nsA", "nsB"}
+			sts := map[string]*inmem.State{}
+			for _, ns := range nss {
+				sts[ns] = inmem.NewStateWithOptions(inmem.WithBackingStore(bs.WithNamespace(ns)))(ns)
+			}
+			acked := map[string]string{}
+			vrt.Branching(true)
+			for i, ns := range nss {
+				vrt.GoNamed("writer:"+ns, func() {
+					w := state.WrapCore(sts[ns])
+					r := conformance.NewStrResource(ns, "r", strings.Repeat(string(rune('a'+i)), 40+30*i))
+					if err := w.Create(ctx, r); err != nil {
+						x.Failf("create in %s: %v", ns, err)
+						return
+					}
+					if _, err := w.UpdateWithConflicts(ctx, r.Metadata(), func(x resource.Resource) error {
+						x.Metadata().Labels().Set("who", ns)
+						return nil
+					}); err != nil {
+						x.Failf("update in %s: %v", ns, err)
+					}
+				})
+			}
+			vrt.WaitQuiescent()
+			vrt.Branching(false)
+			for _, ns := range nss {
+				l, err := sts[ns].List(ctx, resource.NewMetadata(ns, conformance.StrResourceType, "", resource.VersionUndefined))
+				if err != nil {
+					panic(err)
+				}
+				acked[ns] = hx.SnapList(l)
+			}
+			bs.Close() //nolint:errcheck
+			nbs, err := bolt.NewBackingStore(func() (*bbolt.DB, error) { return bbolt.Open(path, 0o600, nil) }, mk())
+			if err != nil {
+				panic(err)
+			}
+			defer nbs.Close() //nolint:errcheck
+			for _, ns := range nss {
+				s2 := inmem.NewStateWithOptions(inmem.WithBackingStore(nbs.WithNamespace(ns)))(ns)
+				l, err := s2.List(ctx, resource.NewMetadata(ns, conformance.StrResourceType, "", resource.VersionUndefined))
+				if err != nil {
+					x.FailKey("shared-store/reload", "marshaler %s: namespace %s cannot be loaded after a restart: %v (acknowledged contents {%s})", mname, ns, err, acked[ns])
+					continue
+				}
+				if got := hx.SnapList(l); got != acked[ns] {
+					x.FailKey("shared-store/contents", "marshaler %s: namespace %s holds {%s} after a restart, acknowledged was {%s}", mname, ns, got, acked[ns])
+				}
+			}
+			x.Outcome("ok")
+		},
+	}
+}
+
 func build(tier string) []explore.Scenario {
 	var out []explore.Scenario
 	fb := []int{0, 1}
@@ -734,6 +818,9 @@ func build(tier string) []explore.Scenario {
 		}
 	}
 	out = append(out, faultScenario(), loadScenario())
+	for _, m := range []string{"zstd(min=0)", "zstd(aes)", "aes(zstd(min=64))", "protobuf"} {
+		out = append(out, sharedStoreScenario(m, []int{0}))
+	}
 	return out
 }
 
